@@ -473,7 +473,7 @@ int main()
           {
             found++;
             if (std::string(r.blob.bytes) != good) leak = std::string(r.blob.bytes);
-            else if (r.blob.gzipBytes) leak = "gz:" + std::string(*r.blob.gzipBytes);
+            else if (r.blob.gzipBytes && std::string(*r.blob.gzipBytes) != good) leak = "gz:" + std::string(*r.blob.gzipBytes);
           }
           else refused++;
           auto tp = st.isFs ? st.a->getTemplate(std::string_view(name)) : std::nullopt;
